@@ -291,12 +291,13 @@ class EnvBoundaryMPS():
                 s0, s1 = bond
                 nx = s0[0]
                 for nz, (op1, op2) in ops.items():
-                    tm[nx].set_operator_(op1)
-                    tm[nx + 1].set_operator_(op2)
+                    ten0, ten1 = tm[nx], tm[nx + 1]
+                    G0, G1 = _nn_operator_as_gate(op1, op2)  # includes the fermionic string between the two operators
+                    tm[nx] = ten0.apply_gate_on_ket(G0, dirn='t')
+                    tm[nx + 1] = ten1.apply_gate_on_ket(G1, dirn='b')
                     env.update_env_(nx + 1, to='first')
                     env.update_env_(nx, to='first')
-                    tm[nx].del_operator_()
-                    tm[nx + 1].del_operator_()
+                    tm[nx], tm[nx + 1] = ten0, ten1
                     out[(s0, s1) + nz] = env.measure(bd=(nx - 1, nx)) / norm_env
 
         for nx, bond_ops in OPh.items():
@@ -309,12 +310,13 @@ class EnvBoundaryMPS():
                 s0, s1 = bond
                 ny = s0[1]
                 for nz, (op1, op2) in ops.items():
-                    tm[ny].set_operator_(op1)
-                    tm[ny + 1].set_operator_(op2)
+                    ten0, ten1 = tm[ny], tm[ny + 1]
+                    G0, G1 = _nn_operator_as_gate(op1, op2)
+                    tm[ny] = ten0.apply_gate_on_ket(G0, dirn='l')
+                    tm[ny + 1] = ten1.apply_gate_on_ket(G1, dirn='r')
                     env.update_env_(ny + 1, to='first')
                     env.update_env_(ny, to='first')
-                    tm[ny].del_operator_()
-                    tm[ny + 1].del_operator_()
+                    tm[ny], tm[ny + 1] = ten0, ten1
                     out[(s0, s1) + nz] = env.measure(bd=(ny - 1, ny)) / norm_env
 
         return out
@@ -547,3 +549,10 @@ def identity_tm_boundary(tmpo):
         tmp = identity_boundary(config, legf)
         phi[n] = tmp.add_leg(0, s=-1).add_leg(2, s=1)
     return phi
+
+
+def _nn_operator_as_gate(O, P):
+    """ Pair of one-site operators O_0 P_1 (site 0 before site 1 in the fermionic order) as a two-site gate, cf. EnvCTM.measure_nn. """
+    O = O.add_leg(s=1, axis=2)
+    P = P.add_leg(s=-1, axis=2)
+    return O.swap_gate(axes=(1, 2)), P
